@@ -148,6 +148,10 @@ def check_law(ctx, case, max_runs):
         c2 = dict(case)
         c2["script"] = script
         ctx.case({"cfg": cfg, "profile": spec, "script": script}, nontrivial=has_tie or m >= 2)
+        if getattr(r, "divergence", None):
+            ctx.fail(f"{cfg['rule']}: asked again in the same process, the count does not meet the random decisions it met before "
+                     "(a decision that was drawn the first time is not drawn again)", c2, r.divergence)
+            break
         if not out.ok:
             ctx.count("constructor_raised_skipped")  # C01
             continue
@@ -319,6 +323,10 @@ def check_tiebreak(ctx, case, max_runs):
         c2 = dict(case)
         c2["script"] = script
         ctx.case({"cfg": cfg, "profile": spec, "script": script}, nontrivial=bool(r.draws))
+        if getattr(r, "divergence", None):
+            ctx.fail(f"{cfg['rule']}: asked again in the same process, the count does not meet the random decisions it met before "
+                     "(a decision that was drawn the first time is not drawn again)", c2, r.divergence)
+            break
         if not out.ok:
             continue
         e = out.value
@@ -336,7 +344,20 @@ def check_tiebreak(ctx, case, max_runs):
                 ctx.fail(f"{cfg['rule']}: tiebreak draw is not a full permutation of a set", c2, {"k": ev["k"], "pop": list(map(str, pop))})
                 break
             match = [R for K, R in recs if set(K) == set(pop)]
-            if cfg["rule"] in ("Plurality", "SNTV", "Borda") or cfg["rule"] in rules.SCORE_RULES:
+            if cfg.get("tiebreak") != "random" or cfg["rule"] in rules.UNTIED_ONLY:
+                # scored tiebreak (or the STV family's elimination tiebreak by initial first-place votes) that left a sub-tie:
+                # the permuted set lies inside a recorded tied set and the record lists it in the drawn order
+                ctx.count("fallback_permutations")
+                sup = [R for K, R in recs if set(pop) <= set(K)]
+                if not sup:
+                    ctx.fail(f"{cfg['rule']}: fallback permutation drawn over candidates that are not inside a recorded tied set", c2,
+                             {"pop": sorted(map(str, pop)), "recorded": [sorted(K) for K, _ in recs]})
+                    break
+                if not any([c for g in R for c in g if c in set(pop)] == list(ev["result"]) for R in sup):
+                    ctx.fail(f"{cfg['rule']}: recorded resolution does not list the sub-tie in the drawn order", c2,
+                             {"pop": sorted(map(str, pop)), "drawn": list(map(str, ev["result"]))})
+                    break
+            elif cfg["rule"] in ("Plurality", "SNTV", "Borda") or cfg["rule"] in rules.SCORE_RULES:
                 # the permuted set is exactly the recorded tied set and the record is the drawn order
                 if not match:
                     ctx.fail(f"{cfg['rule']}: permutation drawn over a set that is not a recorded tied set", c2,
@@ -450,6 +471,18 @@ def run(ctx):
             c["cfg"]["tiebreak"] = "random"
             c["kind"] = "tiebreak"
             ctx.guard("tiebreak", check_tiebreak, ctx, c, max_runs)
+            if r2 != "Approval" and i % 4 == 0:
+                # scored tiebreaks that cannot separate the tied candidates fall back to a random permutation of the sub-tie
+                c3 = {"cfg": dict(c["cfg"], tiebreak=rnd.choice(["borda", "first_place"])), "profile": c["profile"], "kind": "tiebreak"}
+                ctx.guard("tiebreak", check_tiebreak, ctx, c3, max_runs)
+            if i % 4 == 2:
+                # STV family: a tie for elimination is ordered by initial first-place votes, sub-ties at random
+                from .. import cases as _cases
+
+                c4 = _cases.ranking_case(rnd, rnd.choice(["STV", "IRV", "SequentialRCV"]), maxn=5)
+                if c4["cfg"].get("transfer") == "random":
+                    c4["cfg"]["transfer"] = "fractional"
+                ctx.guard("tiebreak", check_tiebreak, ctx, {"cfg": c4["cfg"], "profile": c4["profile"], "kind": "tiebreak"}, max_runs)
 
 
 def post(results, fails, counters):
